@@ -81,7 +81,10 @@ def handler_config(draw, tier, min_dims=2, max_dims=4, max_extent=9, connected_o
     ndims = draw(st.integers(min_dims, max_dims))
     grids = gen.all_process_grids(max_procs, 1, min(2, ndims))
     both = [g for g in grids if len(g) == 2 and g[0] > 1 and g[1] > 1]
-    if ndims >= 3 and both and draw(st.integers(0, 2)) > 0:
+    pick = draw(st.integers(0, 8))
+    if ndims >= 3 and pick == 0:
+        nprocs = draw(st.sampled_from(gen.all_process_grids(max_procs, 3, 3, max_entry=3)))
+    elif ndims >= 3 and both and pick <= 6:
         nprocs = draw(st.sampled_from(both))
     else:
         nprocs = draw(st.sampled_from(grids))
